@@ -15,7 +15,7 @@ CONSTANTS MaxLen,     \* number of navigation actions per behaviour
 VARIABLES ptr0, ptr, hist
 vars == <<ptr0, ptr, hist>>
 
-Alphabet == {126, 47, 48, 49, 45, 43, 32, 35, 97, 233}     \* ~ / 0 1 - + SP # a e-acute
+Alphabet == {126, 47, 48, 49, 45, 43, 32, 35, 97, 233, 1634}     \* ~ / 0 1 - + SP # a e-acute, ARABIC-INDIC DIGIT TWO (a digit to the host, not to RFC 6901)
 Tokens == SeqsUpTo(Alphabet, TokChars)
 \* tokens usable in Join: no leading blank (the property's restriction)
 JoinTokens == {t \in SeqsUpTo(Alphabet, PartChars) : t = <<>> \/ t[1] # 32}
@@ -23,7 +23,7 @@ JoinTokens == {t \in SeqsUpTo(Alphabet, PartChars) : t = <<>> \/ t[1] # 32}
 P(str) == str
 Probe == LET inner == Obj(<<<<97>>, <<49>>, <<>>>>, <<IntV(1), Arr(<<Null>>), Str(<<120>>)>>)
              leaf == Arr(<<IntV(0), inner, Str(<<97, 98>>)>>)
-             ks == <<<<97>>, <<48>>, <<49>>, <<126>>, <<47>>, <<>>, <<233>>, <<32>>, <<45>>, <<43>>, <<35>>, <<48, 49>>, <<43, 49>>, <<32, 49>>, <<126, 49>>, <<97, 47>>>>
+             ks == <<<<97>>, <<48>>, <<49>>, <<126>>, <<47>>, <<>>, <<233>>, <<32>>, <<45>>, <<43>>, <<35>>, <<48, 49>>, <<43, 49>>, <<32, 49>>, <<126, 49>>, <<97, 47>>, <<49, 1634>>, <<49, 50>>>>
          IN Obj(ks, [i \in 1..Len(ks) |-> IF i % 3 = 0 THEN inner ELSE leaf])
 
 Parts == {PtrEscape(t) : t \in JoinTokens}                                    \* a single token, escaped
